@@ -66,7 +66,8 @@ def fn_space(length):
     def decode(i):
         return {'kind': 'fn', 'L': length, 'rain': i // n_i, 'inc': i % n_i}
     return Space('match_storms/L=%d/all-schedules' % length, n_r * n_i,
-                 decode, 'rain in {=s, >s}, increments in {=jump, >jump}')
+                 decode, 'rain in {=s, >s}, increments in {=jump, >jump}',
+                 decoy_every=4096)
 
 
 def fn_inputs(case):
